@@ -373,9 +373,9 @@ fn ins_plane(rep: &Report, per_form: usize, core: bool, seed: u64) {
             }
             let line = ins.ir();
             let mn = match &ins {
-                Ins::Un(op, _) => op.name(),
-                Ins::Simple(s) => *s,
-                _ => "?",
+                Ins::Un(op, d) => format!("{}{}", op.name(), d.width().bits()),
+                Ins::Simple(s) => s.to_string(),
+                _ => "?".to_string(),
             };
             // register operands that alias the implicit accumulator get their own signature
             let alias = match &ins {
@@ -383,7 +383,7 @@ fn ins_plane(rep: &Report, per_form: usize, core: bool, seed: u64) {
                 Ins::Un(_, Loc::R16(r)) if matches!(r, R16::AX | R16::DX) => ":operand-aliases-DX:AX",
                 _ => "",
             };
-            let out = check_ins(&mut b, &ins, &line, &pre, &mut agg, core, "C03 instruction plane", &|c| format!("ins:{}{}:{}", mn, alias, c));
+            let out = check_ins(&mut b, &ins, &line, &pre, &mut agg, core, "C03 instruction plane", &|c| Some(format!("ins:{}{}:{}", mn, alias, c)));
             loc.evals += 1;
             loc.distinct.insert(fnv64(format!("{}|{}|{}", ins.class(), out.alt, out.obs.kind()).as_bytes()));
             if j == 2 && it == 0 {
